@@ -202,6 +202,10 @@ theorem Pres.findElementWithModule (name : String) : Pres R (findElementWithModu
 theorem Pres.validateOne (a : Addr) (ty : String) : Pres R (validateOne (ν := ν) a ty) := by
   unfold Model.validateOne; pres_tac
 
+theorem Pres.loopSignalToException (e : Err) : Pres R (loopSignalToException (ν := ν) e) := by
+  unfold Model.loopSignalToException; pres_tac
+macro_rules | `(tactic| pres_prim) => `(tactic| with_reducible (apply Pres.loopSignalToException))
+
 macro_rules | `(tactic| pres_prim) => `(tactic| with_reducible (first
   | apply Pres.getThis | apply Pres.getReturnValue | apply Pres.matchIDType | apply Pres.matchIDName
   | apply Pres.matchIDNameOpt | apply Pres.findElement | apply Pres.findElementWithModule | apply Pres.validateOne))
